@@ -89,6 +89,23 @@ Qed.
 Check C10_page_insert_complete : C10_page_insert_complete_statement.
 Print Assumptions C10_page_insert_complete.
 
+(** ... and a defragmentation of any reachable page keeps its cells and its free-space counter and
+    leaves every free byte in one piece between the slot array and the cells. *)
+Definition C10_page_defragment_compacts_statement : Prop :=
+  forall chdr phdr capacity ops,
+    0 < chdr -> chdr mod 8 = 0 -> capacity mod 8 = 0 -> Forall op_al ops ->
+    let p := fst (Slotted.run chdr phdr (Slotted.init capacity) ops) in
+    let p' := defragment chdr p in
+    cells p' = cells p /\ fs p' = fs p /\ fsp p' = 2 * nslots p' + fs p'.
+Theorem C10_page_defragment_compacts : C10_page_defragment_compacts_statement.
+Proof.
+  intros chdr phdr capacity ops H0 H1 H2 H3 p p'.
+  destruct (run_inv chdr phdr H0 H1 ops (Slotted.init capacity) (init_inv chdr H0 H1 capacity H2) H3) as [HI _].
+  exact (defragment_compacts chdr H0 H1 p HI).
+Qed.
+Check C10_page_defragment_compacts : C10_page_defragment_compacts_statement.
+Print Assumptions C10_page_defragment_compacts.
+
 (** Non-vacuity: a page of capacity 160 with 32-byte cell headers: three inserts, a shrinking replace,
     a remove that leaves a hole, an insert that only fits after defragmentation, a refused insert. *)
 Example C10_page_example :
